@@ -29,7 +29,7 @@ func init() {
 		Rules: []func(*Checker){ruleC14Memo, ruleC14Trace, ruleTraceCalls("C14.calls"), ruleCtxNonNil("C14.ctx"), ruleLockBalanced("C14.balanced"), ruleC14Queue, aliasRuleFiltered(ruleC08Callbacks, "C08.callbacks", "C14.reports", 3, func(o Oblig) bool {
 			return strings.Contains(o.Key, "hands the report to a callback") || strings.Contains(o.Key, "/callback ")
 		}), aliasRule(ruleC08NoDrop, "C08.nodrop", "C14.nodrop", 2),
-			ruleSelectionBeforeAnswer("C14.selected"), aliasRuleFiltered(ruleC08SameJoin, "C08.samejoin", "C14.samejoin", 1, func(o Oblig) bool { return strings.Contains(o.Key, "success return") }), aliasRuleFiltered(ruleC06CanonURL, "C06.canonurl", "C14.canonkey", 1, func(o Oblig) bool { return strings.Contains(o.Key, "canonical") }), ruleQueueLoopsProgress("C14.progress")},
+			ruleSelectionBeforeAnswer("C14.selected"), aliasRuleFiltered(ruleC08SameJoin, "C08.samejoin", "C14.samejoin", 1, func(o Oblig) bool { return strings.Contains(o.Key, "success return") }), aliasRuleFiltered(ruleC06CanonURL, "C06.canonurl", "C14.canonkey", 1, func(o Oblig) bool { return strings.Contains(o.Key, "canonical") }), ruleQueueLoopsProgress("C14.progress"), aliasRule(ruleC08Drain, "C08.drain", "C14.drain", 1), ruleQueuesDrained("C14.drained")},
 		NotDecided: []string{
 			"termination in general (needs a ranking argument over the world); the analysed-set store is the structural necessary condition checked",
 			"'exactly once' across failures",
